@@ -132,7 +132,7 @@ def cvc5_check(smt2, timeout_s):
 
 def replay(pid, res, ob):
     """write the replay file for a refuted obligation and run it on the real code"""
-    d = os.path.join(HERE, "replay", pid)
+    d = os.path.join(HERE, "replay", pid) if "PYVC_REPO" not in os.environ else os.path.join(HERE, ".work", "replay_scratch", pid)
     os.makedirs(d, exist_ok=True)
     safe = re.sub(r"[^A-Za-z0-9_.-]", "_", ob["name"])[:150]
     path = os.path.join(d, safe + ".json")
@@ -314,8 +314,9 @@ def main(argv=None):
         "wall_s": wall,
         "violations": nviol,
     }
-    os.makedirs(os.path.join(HERE, "evidence"), exist_ok=True)
-    with open(os.path.join(HERE, "evidence", f"{a.pid}.json"), "w") as f:
+    evdir = os.path.join(HERE, "evidence") if "PYVC_REPO" not in os.environ else os.path.join(HERE, ".work", "evidence_scratch")
+    os.makedirs(evdir, exist_ok=True)
+    with open(os.path.join(evdir, f"{a.pid}.json"), "w") as f:
         json.dump(ev, f, indent=1)
     print(f"[{a.pid}] tier={a.tier} targets={len(targets)} obligations={n_obl} discharged={n_dis} violations={nviol} undecided={len(undecided)} wall={wall}s")
     for r in results:
